@@ -37,6 +37,9 @@ var c10Grids = map[string]string{
 	"celsius": "[]celsius{celsius(math.NaN()), -1.5, 0, 0.5, 1, 1.5, 2, celsius(math.Inf(1))}",
 	"string":  "[]string{\"\", \"a\", \"A\", \"ab\", \"b\", \"=\", \"a=b\", \"a==b=c\", \"==\"}",
 	"mystr":   "[]mystr{\"\", \"a\", \"ab\", \"a=b\"}",
+	"errstr":  "[]errstr{\"\", \"E42\"}",
+	"fmtstr":  "[]fmtstr{\"\", \"hunter2\"}",
+	"gostr":   "[]gostr{\"\", \"x\"}",
 	"[]byte":  "[][]byte{nil, {}, []byte(\"a\"), []byte(\"ab\"), []byte(\"a=b\")}",
 	"bool":    "[]bool{false, true}",
 	"*pt":     "[]*pt{nil, {1, [2]int{3, 4}}}",
@@ -59,6 +62,22 @@ func (p *pt) get() int { return p.x }
 type pstr struct{ s string }
 
 func (p *pstr) String() string { return "P:" + p.s }
+
+type errstr string
+
+func (e errstr) Error() string { return "error code " + string(e) }
+
+type fmtstr string
+
+func (f fmtstr) Format(st fmt.State, verb rune) { fmt.Fprint(st, "****") }
+
+type gostr string
+
+func (g gostr) GoString() string { return "GO" }
+
+type codec struct{ encode func(int) int }
+
+var pkgfn = func(x int) int { return x + 1 }
 
 func g(k int) int { tr(fmt.Sprint("g", k)); return k }
 func gs(s string) string { tr("gs" + s); return s }
@@ -145,6 +164,17 @@ func c10Templates() []c10Tmpl {
 	add(c10Tmpl{Family: "sprint-of-stringer-pointer", Types: "*pstr", Params: []c10Param{{"p", "*pstr"}}, Result: "string", Body: "return fmt.Sprint(p)"})
 	add(c10Tmpl{Family: "sprintf-of-stringer-pointer", Types: "*pstr", Params: []c10Param{{"p", "*pstr"}}, Result: "string", Body: "return fmt.Sprintf(\"%s\", p)"})
 	add(c10Tmpl{Family: "sprint-of-mystr", Types: "mystr", Params: []c10Param{{"m", "mystr"}}, Result: "string", Body: "return fmt.Sprint(m)"})
+	// string-kinded operands that fmt formats through a method (error, Formatter, GoStringer)
+	for _, ty := range []string{"errstr", "fmtstr", "gostr", "mystr"} {
+		for _, e := range []string{"fmt.Sprint(v)", "fmt.Sprintf(\"%s\", v)", "fmt.Sprintf(\"%v\", v)"} {
+			add(c10Tmpl{Family: "sprint-of-string-kind:" + e, Types: ty, Params: []c10Param{{"v", ty}}, Result: "string", Body: "return " + e})
+		}
+	}
+	// forwarding literals whose callee is a func-typed field / package-level func variable that changes later
+	add(c10Tmpl{Family: "unlambda-func-field-reassigned", Types: "int", Params: []c10Param{{"k", "int"}}, Result: "int", Body: "c := codec{encode: func(x int) int { return x * 2 }}\n\tfn := func(x int) int { return c.encode(x) }\n\tc.encode = func(x int) int { return x * 3 }\n\treturn fn(k)"})
+	add(c10Tmpl{Family: "unlambda-func-field-of-pointer-reassigned", Types: "int", Params: []c10Param{{"k", "int"}}, Result: "int", Body: "c := &codec{encode: func(x int) int { return x * 2 }}\n\tfn := func(x int) int { return c.encode(x) }\n\tc.encode = func(x int) int { return x * 3 }\n\treturn fn(k)"})
+	add(c10Tmpl{Family: "unlambda-pkg-funcvar-reassigned", Types: "int", Params: []c10Param{{"k", "int"}}, Result: "int", Body: "old := pkgfn\n\tdefer func() { pkgfn = old }()\n\tfn := func(x int) int { return pkgfn(x) }\n\tpkgfn = func(x int) int { return x + 100 }\n\treturn fn(k)"})
+	add(c10Tmpl{Family: "unlambda-struct-value-method", Types: "int", Params: []c10Param{{"k", "int"}}, Result: "int", Body: "p := pt{x: k}\n\tfn := func() int { return p.x }\n\tgetter := func() int { return (&p).get() }\n\tp.x = 99\n\treturn fn() + getter()"})
 	// ---- valSwap
 	add(c10Tmpl{Family: "swap-via-tmp", Types: "int", Params: []c10Param{{"a", "int"}, {"b", "int"}}, Result: "string", Body: "tmp := a\n\ta = b\n\tb = tmp\n\treturn fmt.Sprint(a, b)"})
 	add(c10Tmpl{Family: "swap-via-tmp-used-after", Types: "int", Params: []c10Param{{"a", "int"}, {"b", "int"}}, Result: "string", Body: "tmp := a\n\ta = b\n\tb = tmp\n\treturn fmt.Sprint(a, b, tmp)"})
